@@ -225,10 +225,5 @@ example : ∃ g : GI, g.Sound ∧ IsTree g.toG ∧ 2 ≤ g.n := by
   show 2 ≤ d.n
   omega
 
-/-- **regeneration.** `verif/extract` recognised the shape of every format constant of `graph/encoding.go`
-(`Mamba/Gen/CodecConsts.lean`, rewritten from the source on every run); the model `Mamba/Model/Codec.lean` is elaborated
-with those values, so every theorem of this file is re-checked against the constants the source contains now. -/
-theorem gen_constants_found : Gen.Codec.allFound = true := by decide
-
 end C07
 end Codec
